@@ -94,6 +94,19 @@ func encJobs(ctx *core.Ctx) []*job {
 			add("flatepr", "", 0, p, c06.GenBytes(r, []string{"random", "ramp", "runs", "sparse", "equal"}[r.Intn(5)], rows*p.rowBytes()))
 		}
 	}
+	// dense length sweeps (compared with indep/codecs, judged by TLC on
+	// disagreement): incompressible data makes the LZW code count follow the
+	// length, so the last code falls on every position around the 9->10,
+	// 10->11 and 11->12 bit switches; the other formats cross their group and
+	// buffer sizes
+	for l := 1; l <= ctx.Pick(1830, 4200); l++ {
+		d := c06.GenBytes(r, "random", l)
+		add("lzw", "sweep", 0, predP{}, d)
+		add("lzw", "sweep", 1, predP{}, d)
+		if l <= 1300 {
+			add([]string{"a85", "ah", "rl"}[l%3], "sweep", 0, predP{}, d)
+		}
+	}
 	// bulk: compared with indep/codecs, judged by TLC only on disagreement
 	bulk := ctx.Pick(150, 1500)
 	for k := 0; k < bulk; k++ {
@@ -254,6 +267,33 @@ func decJobs(ctx *core.Ctx) ([]*job, []foreignLine, error) {
 			add("lzwpr", "indep", early, p, d, codecs.LZWEncode(mid, early, 0))
 		case 6:
 			jobs = append(jobs, &job{Dir: "dec", Fmt: "flate", Variant: "czlib", Level: []int{0, 1, 6, 9}[r.Intn(4)], data: d})
+		}
+	}
+	// dense length sweeps of foreign encodings, all at once and through
+	// sources that deliver the bytes in pieces (end markers and groups
+	// straddle every position of the decoders' read buffers)
+	for l := 0; l <= ctx.Pick(1300, 2600); l++ {
+		d := c06.GenBytes(r, []string{"random", "text", "zero"}[l%3], l)
+		e85 := codecs.ASCII85Encode(d)
+		jobs = append(jobs, &job{Dir: "dec", Fmt: "a85", Variant: "indep-sweep", data: d, enc: e85})
+		jobs = append(jobs, &job{Dir: "dec", Fmt: "a85", Variant: "indep-sweep-split", data: d, enc: e85, Src: fmt.Sprintf("split:%d", len(e85)-1)})
+		if l%4 == 0 {
+			jobs = append(jobs, &job{Dir: "dec", Fmt: "a85", Variant: "indep-sweep-onebyte", data: d, enc: e85, Src: "onebyte"})
+		}
+		switch l % 3 {
+		case 0:
+			eh := codecs.ASCIIHexEncode(d)
+			jobs = append(jobs, &job{Dir: "dec", Fmt: "ah", Variant: "indep-sweep", data: d, enc: eh},
+				&job{Dir: "dec", Fmt: "ah", Variant: "indep-sweep-split", data: d, enc: eh, Src: fmt.Sprintf("split:%d", len(eh)-1)})
+		case 1:
+			er := codecs.RunLengthEncode(d)
+			jobs = append(jobs, &job{Dir: "dec", Fmt: "rl", Variant: "indep-sweep", data: d, enc: er},
+				&job{Dir: "dec", Fmt: "rl", Variant: "indep-sweep-split", data: d, enc: er, Src: fmt.Sprintf("split:%d", len(er)-1)})
+		default:
+			early := l / 3 % 2
+			el := codecs.LZWEncode(d, early, 0)
+			jobs = append(jobs, &job{Dir: "dec", Fmt: "lzw", Variant: "indep-sweep", Early: early, data: d, enc: el},
+				&job{Dir: "dec", Fmt: "lzw", Variant: "indep-sweep-onebyte", Early: early, data: d, enc: el, Src: "onebyte"})
 		}
 	}
 	// LZW from an encoder that defers the clear code: the table is filled
